@@ -1,7 +1,8 @@
 (* C12  Each public substring building block agrees with naive search on its
    documented domain; constructors report unsupported inputs by None. *)
 From Memchr Require Import Spec SpecProofs Params Sub.IsEqual Sub.RabinKarp Sub.RabinKarpProofs
-  Sub.ShiftOr Sub.ShiftOrProofs Sub.Pair Sub.PackedPair Sub.PackedPairProofs.
+  Sub.ShiftOr Sub.ShiftOrProofs Sub.Pair Sub.PackedPair Sub.PackedPairProofs
+  Sub.Prefilter Sub.TwoWay Sub.TwoWayCert Sub.TwoWayPreProofs Sub.TwoWayFwdProofs Sub.TwoWayRevProofs Sub.TwoWayTier2 Sub.TwoWayTier2Rev.
 
 Definition bytes_ok (l : list N) : Prop := Forall (fun b => (b < 256)%N) l.
 
@@ -71,11 +72,36 @@ Theorem C12_packedpair_new : forall isa x i1 i2,
   i1 < length x -> i2 < length x -> exists w, pw_new isa x i1 i2 = Ok w.
 Proof. exact pw_new_ok. Qed.
 
+(* Two-Way forward and reverse, for EVERY non-empty needle (Tier 2: maximal-suffix algorithm,
+   critical factorisation theorem) and every haystack *)
+Theorem C12_twoway_find : forall x h a st, bytes_ok h -> 1 <= length x ->
+  exists tw, fst (tw_new x) = Ok tw /\ exists r, fst (tw_find tw None a h x st) = Ok r /\ fst r = find_spec x h.
+Proof.
+  intros x h a st Hh Hn.
+  destruct (satq_fst _ _ _ (tw_new_ok x)) as (tw & Htw & (Hbs & _) & _).
+  exists tw. split; [exact Htw|].
+  pose proof (tw_cert_fwd_all x Hn) as Hc. unfold tw_cert_fwd_of in Hc. rewrite Htw in Hc.
+  destruct (satq_fst _ _ _ (tw_find_correct x h tw None a 0 st Hc Hbs ltac:(discriminate) Hh)) as (r & Hr & E & _).
+  exists r. split; assumption.
+Qed.
+
+Theorem C12_twoway_rfind : forall x h, 1 <= length x ->
+  exists tw, fst (tw_new_rev x) = Ok tw /\ fst (tw_rfind tw h x) = Ok (rfind_spec x h).
+Proof.
+  intros x h Hn.
+  destruct (satq_fst _ _ _ (tw_new_rev_ok x)) as (tw & Htw & (Hbs & _) & _).
+  exists tw. split; [exact Htw|].
+  pose proof (tw_cert_rev_all x Hn) as Hc. unfold tw_cert_rev_of in Hc. rewrite Htw in Hc.
+  destruct (satq_fst _ _ _ (tw_rfind_correct x h tw Hc Hbs)) as (r & Hr & -> & _). exact Hr.
+Qed.
+
 (* non-vacuity: a hash collision (needles longer than 32 bytes collide with windows differing in their first byte) *)
 Example C12_example_rk :
   fst (rk_find (rk_new (repeat 7%N 40)) (repeat 7%N 40) ((9 :: repeat 7%N 39) ++ repeat 7%N 41)%N) = Ok (Some 1).
 Proof. vm_compute. reflexivity. Qed.
 
+Print Assumptions C12_twoway_find.
+Print Assumptions C12_twoway_rfind.
 Print Assumptions C12_rabinkarp_find.
 Print Assumptions C12_rabinkarp_rfind.
 Print Assumptions C12_shiftor_new.
